@@ -88,7 +88,8 @@ contract(M + "ScenarioOutline.run", props=P + ["C03"], params={"self": "ref:Scen
          loops=[Loop(modifies=RUN_MODIFIES, invariant=dict(ACC, **{
              "scope": "G_ctx_depth == old(G_ctx_depth) and G_ctx_scenario == old(G_ctx_scenario) and G_ctx_rule == old(G_ctx_rule) and "
                       "forall(lambda k: implies(k < old(G_ctx_depth), G_ctx_saved_scenario(k) == old(G_ctx_saved_scenario(k)) and G_ctx_saved_rule(k) == old(G_ctx_saved_rule(k))))",
-             "hook-flags": "forall(lambda r: implies(field_of(r, 'hook_failed', 'Step') and not old(field_of(r, 'hook_failed', 'Step')), G_bad > old(G_bad)))"}))],
+             "hook-flags": "forall(lambda r: implies(field_of(r, 'hook_failed', 'Step') and not old(field_of(r, 'hook_failed', 'Step')), G_bad > old(G_bad)))",
+             "with-stop-no-row-runs-after-a-failed-one": "implies(runner.config.stop, failed_count == 0)"}))],
          ensures=dict(RUN_ENSURES, **{
              "status-cache-is-empty-after-the-rows-ran":
                  "self._cached_status == Status.untested",
@@ -138,6 +139,7 @@ contract(M + "ScenarioContainer.run", props=P + ["C03"], params={"self": "ref:Sc
                           "and G_ctx_saved_scenario(old(G_ctx_depth)) is ABSENT and G_ctx_saved_rule(old(G_ctx_depth)) == old(G_ctx_rule) "
                           "and forall(lambda k: implies(k < old(G_ctx_depth), G_ctx_saved_scenario(k) == old(G_ctx_saved_scenario(k)) and G_ctx_saved_rule(k) == old(G_ctx_saved_rule(k))))",
                  "own-flag-only-with-bad-event": "implies(self.hook_failed, G_bad > old(G_bad))",
+                 "with-stop-no-item-runs-after-a-failed-one": "implies(runner.config.stop, failed_count == 0)",
              })),
              Loop(modifies=HOOKMOD, invariant={                                   # 4: after_tag hooks
                  "capture": CAPI, "context": CTXI + " and G_ctx_scenario is ABSENT and G_ctx_depth == old(G_ctx_depth) + 1",
@@ -245,7 +247,8 @@ prop("C12", level="proof", bounded=[],
      explanation="run_hook containment and attribution proved (an exception in a hook never escapes, is counted, marks the "
                  "element concerned, *_all hooks abort); before/after step hooks bracket the step; no hook in dry-run or for "
                  "de-selected scenarios; a failing before_all hook aborts the run before any feature is entered (only after_all "
-                 "follows); a feature or rule whose own hook failed reports failure to its caller (so --stop stops there); "
+                 "follows); a feature or rule whose own hook failed reports failure to its caller (so --stop stops there); with "
+                 "--stop no run item (row, scenario, rule) is started after a failed one; "
                  "strict nesting of the whole hook log is bounded",
      notes=_RUN_NOTES)
 prop("C15", level="other", bounded=[],
